@@ -556,6 +556,39 @@ pub fn run(cfg: &Cfg, rep: &mut Report) {
             }
         }
     }
+    for (idx, case) in crate::optyping::match_coverage_cases().iter().enumerate() {
+        if cfg.owns(idx as u64) {
+            ctx.parse("match-coverage", &case.decl, false);
+        }
+    }
+    for (idx, case) in crate::optyping::union_call_cases().iter().enumerate() {
+        if cfg.owns(idx as u64) {
+            for c in &case.calls {
+                ctx.parse("union-call", c, false);
+            }
+        }
+    }
+    // (n) every text of one or two printable ASCII characters, alone, before a program (same line / next line) and
+    // after one: comment-like, shebang-like and escape-like prefixes the grammar has no rule for
+    {
+        let ascii: Vec<char> = (0x20u8..0x7f).map(|b| b as char).collect();
+        let mut k = 0u64;
+        for a in &ascii {
+            for b in std::iter::once(None).chain(ascii.iter().map(Some)) {
+                k += 1;
+                if !cfg.owns(k) {
+                    continue;
+                }
+                let t: String = match b {
+                    Some(b) => format!("{a}{b}"),
+                    None => a.to_string(),
+                };
+                for text in [t.clone(), format!("{t}1"), format!("{t} x := 5"), format!("{t}\n1"), format!("{t}\r\n1"), format!("{t}/usr/bin/env simplesl"), format!("1 {t}"), format!("1\n{t}")] {
+                    ctx.parse("short-ascii-texts", &text, false);
+                }
+            }
+        }
+    }
     for (idx, src) in crate::optyping::diverging_branch_programs().iter().enumerate() {
         if cfg.owns(idx as u64) {
             ctx.parse("diverging-branch-narrowing", src, false);
